@@ -63,8 +63,8 @@ WildIdx(cs) == \E i \in 1..(Len(cs) - 1) : cs[i] = "*" /\ cs[i+1] = "["     \* i
 \* sub-key "k<sep>v[<sep>type]": class "ok" | "err".  Over the configs' alphabet (letters a, t; digit 1; the words
 \* bool, num, string; '.') strconv.ParseBool accepts exactly "1" and "t", strconv.ParseFloat exactly the digit strings with at most one '.' 
 BoolVal(cs) == cs \in {<<"t">>, <<"1">>}
-NumOK(cs) == /\ \A i \in 1..Len(cs) : cs[i] \in {"1", "."}                       \* "1", "11", "1.", ".1", "1.1": digits with at most one '.'
-             /\ \E i \in 1..Len(cs) : cs[i] = "1"
+NumOK(cs) == /\ \A i \in 1..Len(cs) : cs[i] \in {"0", "1", "."}                  \* "1", "11", "1.", ".1", "1.1", "010": digits with at most one '.'
+             /\ \E i \in 1..Len(cs) : cs[i] \in {"0", "1"}
              /\ Cardinality({i \in 1..Len(cs) : cs[i] = "."}) <= 1
 TypeName(cs) == CASE cs = <<"b", "o", "o", "l">> -> "bool" [] cs = <<"n", "u", "m">> -> "num" [] cs = <<"s", "t", "r", "i", "n", "g">> -> "string" [] OTHER -> "?"
 SubKeyClass(cs, sep) ==
@@ -89,6 +89,8 @@ ParseSubKey(cs, sep) ==
      ELSE CASE TypeName(ps[3]) = "string" -> strc
             [] TypeName(ps[3]) = "bool" -> Cnd("b", "true")
             [] TypeName(ps[3]) = "num" -> Cnd("f", Join(ps[2]))
+\* the float64 a numeral of the typed forms denotes, as its canonical token (DECIMAL whatever zeros lead: "010" is ten)
+NumCanon(cs) == CASE cs = <<"0", "1", "0">> -> "10" [] cs = <<"0", "1", "1">> -> "11" [] cs = <<"1", ".">> -> "1" [] cs = <<".", "1">> -> "0.1" [] OTHER -> Join(cs)
 \* newVal "k<sep>v[<sep>type]" of UpdateValuesForPath: a string type name is not accepted there
 NewValClass(cs, sep) ==
   LET ps == SplitOn(cs, sep) IN
